@@ -104,6 +104,10 @@ def run(outcome, tier, seed):
         outcome.oracle_failures.append({"what": "the process driving the YAML binding died (a crash is not a clean panic): %s" % str(e)[:500]})
         return
     for d in outcome.disagreements:
+        if "overread" in d.get("implementation", ""):
+            outcome.oracle_failures.append({"what": "the YAML parser yields events parsed from memory its reader never filled: " + d.get("implementation", ""),
+                                            "trace": d.get("case", "")[:3000]})
+            continue
         # a rejected real trace is the property failing, with the trace as the replay
         outcome.oracle_failures.append({"what": "resource trace of the libyaml binding rejected by the protocol monitor: " + d.get("model", ""),
                                         "trace": d.get("case", "")[:3000]})
